@@ -541,21 +541,39 @@ theorem pres_mmlTranspose : Pres mmlTranspose := by
       intro p
       obtain ⟨raw, e⟩ := p
       simp only []
-      apply pres_track_bind
-      intro t ht
-      have hs := Track.setKeySignature_same t (raw.filter fun b => !isSpace (schar b))
-      cases hk : t.setKeySignature (raw.filter fun b => !isSpace (schar b)) with
-      | ok t' =>
-        rw [hk] at hs
-        simp only []
-        exact pres_modifyTrack_const t' (tok_of_revEvents hs ht)
-      | invalidArgument t' =>
-        rw [hk] at hs
-        simp only []
-        apply pres_bind (pres_modifyTrack_const t' (tok_of_revEvents hs ht))
+      apply pres_ite
+      · apply pres_bind (pres_parseError _)
         intro _
-        exact pres_parseError _
-      | ubShift => simp only []; exact pres_fail _
+        apply pres_track_bind
+        intro t ht
+        have hs := Track.setKeySignature_same t (raw.filter fun b => !isSpace (schar b))
+        cases hk : t.setKeySignature (raw.filter fun b => !isSpace (schar b)) with
+        | ok t' =>
+          rw [hk] at hs
+          simp only []
+          exact pres_modifyTrack_const t' (tok_of_revEvents hs ht)
+        | invalidArgument t' =>
+          rw [hk] at hs
+          simp only []
+          apply pres_bind (pres_modifyTrack_const t' (tok_of_revEvents hs ht))
+          intro _
+          exact pres_parseError _
+        | ubShift => simp only []; exact pres_fail _
+      · apply pres_track_bind
+        intro t ht
+        have hs := Track.setKeySignature_same t (raw.filter fun b => !isSpace (schar b))
+        cases hk : t.setKeySignature (raw.filter fun b => !isSpace (schar b)) with
+        | ok t' =>
+          rw [hk] at hs
+          simp only []
+          exact pres_modifyTrack_const t' (tok_of_revEvents hs ht)
+        | invalidArgument t' =>
+          rw [hk] at hs
+          simp only []
+          apply pres_bind (pres_modifyTrack_const t' (tok_of_revEvents hs ht))
+          intro _
+          exact pres_parseError _
+        | ubShift => simp only []; exact pres_fail _
     · pres3
 
 theorem pres_mmlEcho : Pres mmlEcho := by unfold mmlEcho; pres3
